@@ -50,6 +50,7 @@ type decExtractor struct {
 	fset   *token.FileSet
 	recv   string          // receiver variable of the current function
 	locals map[string]bool // parameters, results and local variables of the current function
+	nz     *decNormaliser  // helpers introduced by refactorings (normalise.go)
 }
 
 // enter records the receiver and the local names of fd: every rendering until the next enter is alpha-normalised
@@ -253,8 +254,13 @@ func decIntLit(e ast.Expr) (int64, bool) {
 	return v, true
 }
 
-// readWidths sums the widths of the calls <recv>.readInt8/16/32/64(...) found in the statements.
+// readWidths sums the widths of the calls <recv>.readInt8/16/32/64(...) found in the statements, including those made
+// by helper methods (normalise.go) called on <recv>.
 func (d *decExtractor) readWidths(recv string, stmts []ast.Stmt) int64 {
+	return d.readWidthsDepth(recv, stmts, 3)
+}
+
+func (d *decExtractor) readWidthsDepth(recv string, stmts []ast.Stmt, depth int) int64 {
 	widths := map[string]int64{"readInt8": 1, "readInt16": 2, "readInt32": 4, "readInt64": 8}
 	var sum int64
 	for _, s := range stmts {
@@ -269,6 +275,11 @@ func (d *decExtractor) readWidths(recv string, stmts []ast.Stmt) int64 {
 			}
 			if id, ok := sel.X.(*ast.Ident); ok && id.Name == recv {
 				sum += widths[sel.Sel.Name]
+				if d.nz != nil && depth > 0 {
+					if h := d.nz.helperOf(call); h != nil {
+						sum += d.readWidthsDepth(decRecvIdent(h), h.Body.List, depth-1)
+					}
+				}
 			}
 		})
 	}
@@ -379,8 +390,11 @@ func extractDecoder(repo, root string) error {
 	parse := func(name string) (*ast.File, error) {
 		return parser.ParseFile(d.fset, filepath.Join(repo, name), nil, 0)
 	}
+	nz := newDecNormaliser(d.fset, repo)
+	d.nz = nz
 	need := func(f *ast.File, file, recv, name string) (*ast.FuncDecl, error) {
 		if fd := decFunc(f, recv, name); fd != nil {
+			nz.normalise(fd)
 			return fd, nil
 		}
 		return nil, fmt.Errorf("untranslated: %s: func (%s) %s not found", file, recv, name)
@@ -466,8 +480,18 @@ func extractDecoder(repo, root string) error {
 	}
 	d.enter(readBatchWith)
 	decInspect(readBatchWith.Body, func(n ast.Node) {
+		// the branch may do more (e.g. skip the bytes of the response); what the model relies on is the empty reader
 		is, ok := n.(*ast.IfStmt)
-		if !ok || !d.plainIfElse(is, "$1 == $2", "$1 = &messageSetReader{empty: true}") {
+		if !ok || is.Init != nil || d.render(is.Cond) != "$1 == $2" {
+			return
+		}
+		has := false
+		for _, s := range is.Body.List {
+			if d.render(s) == "$1 = &messageSetReader{empty: true}" {
+				has = true
+			}
+		}
+		if !has {
 			return
 		}
 		if blk, ok := is.Else.(*ast.BlockStmt); ok && d.containsCall(blk, "newMessageSetReader") != nil {
